@@ -2,6 +2,23 @@
 
 // Contracts for package directconnection, property C10 (comment-only; read by /verif/engine, never compiled into a build).
 // C10: direct connections deliver exactly once, intact, in order; backpressure delays, never drops or duplicates.
+//
+// Decided here (sequential reading of one tick; ports/messages are interface values seen through trusted contracts):
+//   forwardMany(port)  exactly the first k queued messages of `port` are retrieved, each handed -- same interface value, in
+//                      queue order -- to the port registered under its Dst; the log grows by exactly those k entries; no other
+//                      port's queue, room or incoming side changes; k < queue length only because the destination of message
+//                      k cannot accept; no delivery into a port that cannot accept; result <==> k > 0.
+//   Tick               cursor' = (cursor + 1) mod n; result <==> something was delivered; every delivery of the tick is a
+//                      retrieved, unmodified message of a plugged port, at the port registered under its Dst, in queue order
+//                      per source, every retrieved message delivered (no drop / duplicate).  NOT decided: which port each step
+//                      visits (exactly once from the cursor) -- see ENGINE LIMIT at Tick; its arithmetic half is lemma rr*.
+//   table              addPort / PlugIn append the port, keep every registered name, point the (single) new or changed entry at
+//                      the new port, keep the table well formed; getPortByName panics iff the name is unknown.
+//   NotifySend / NotifyAvailable   make the connection tick (through the verified TickNow contract of package modeling);
+//                      NotifyAvailable tells every other plugged port exactly once.
+// Preconditions the code does not check (reproduced on the real code, see the C10 report): at least one plugged port when
+// ticking (Tick divides by the number of ports), distinct port names (a second port with the same name silently takes over
+// the name), every queued message addressed to a plugged name (getPortByName panics otherwise).
 package directconnection
 
 // ---- ghost view of the ports (messaging.Port interface values; only trusted interface contracts see them) ----
@@ -201,10 +218,11 @@ package directconnection
 //@   witness wport int = ifaceval(port)
 //@   witness wdl0 int = old(dlvN)
 //@   witness wr0 int = old(outRetr)[ifaceval(port)]
+//@   witness last map = glast
 //@   label C10.fwd.names
 //@   ensures wport == ifaceval(port) && wdl0 == old(dlvN) && wr0 == old(outRetr)[ifaceval(port)]
 //@   label C10.fwd.k
-//@   ensures 0 <= fwdK(port) && fwdK(port) <= old(numOut(ifaceval(port))) && 0 <= old(outRetr)[ifaceval(port)]
+//@   ensures 0 <= fwdK(port) && fwdK(port) <= old(numOut(ifaceval(port)))
 //@   label C10.fwd.retrieved
 //@   ensures onlyRetrieved(port)
 //@   label C10.fwd.count
@@ -219,11 +237,17 @@ package directconnection
 //@   ensures result <==> fwdK(port) > 0
 //@   label C10.fwd.nooverfill
 //@   ensures forall q int :: !old(canDlv)[q] ==> !canDlv[q]
+// the incoming side of a port changes only if one of this call's deliveries went to that port (never to another port)
+//@   label C10.fwd.otherreceivers
+//@   ensures forall q int :: (canDlv[q] != old(canDlv)[q] || inTyp[q] != old(inTyp)[q] || inVal[q] != old(inVal)[q]) ==> old(dlvN) <= last[q] && last[q] < dlvN && dlvTo[last[q]] == q
 //@   label C10.fwd.othersenders
 //@   ensures forall p int :: p != ifaceval(port) ==> (canSend[p] <==> old(canSend)[p])
 //@   label C10.fwd.table
 //@   ensures tableWF(m.ports)
 //@   assigns outRetr, canSend, canDlv, dlvN, dlvTyp, dlvVal, dlvTo, inTyp, inVal
+//@   loop 0: ghost glast = mapof(j, 0)
+//@   loop 0: backedge glast = upd(glast, ifaceval(dstPort), dlvN - 1)
+//@   loop 0: invariant forall q int :: (canDlv[q] != old(canDlv)[q] || inTyp[q] != old(inTyp)[q] || inVal[q] != old(inVal)[q]) ==> old(dlvN) <= glast[q] && glast[q] < dlvN && dlvTo[glast[q]] == q
 //@   loop 0: invariant tableWF(m.ports) && routable(m, ifaceval(port))
 //@   loop 0: invariant 0 <= fwdK(port) && onlyRetrieved(port)
 //@   loop 0: invariant dlvN == old(dlvN) + fwdK(port)
@@ -242,6 +266,19 @@ package directconnection
 // from the outgoing queue of a plugged port, handed to the port registered under its Dst, in queue order per source, each
 // retrieved message delivered (no drop, no duplicate), nothing delivered into a port that could not accept.
 //@ func rr(i, s, n) = i + s < n ? i + s : i + s - n
+// The arithmetic half of "every plugged port exactly once, starting at the cursor": IF the step counter i runs over 0..n-1
+// (Go's range-over-int; the part the engine cannot track), the visited index (i + s) % n equals rr(i, s, n), stays in range,
+// starts at s and never repeats.
+//@ lemma rrIsMod(i, s, n, q, r)
+//@   property C10
+//@   requires 0 <= i && i < n && 0 <= s && s < n && i + s == q * n + r && 0 <= r && r < n
+//@   label C10.lemma.rr.mod
+//@   ensures r == rr(i, s, n)
+//@ lemma rrPermutes(i, j, s, n)
+//@   property C10
+//@   requires 0 <= i && i < j && j < n && 0 <= s && s < n
+//@   label C10.lemma.rr.perm
+//@   ensures 0 <= rr(i, s, n) && rr(i, s, n) < n && rr(i, s, n) != rr(j, s, n) && rr(0, s, n) == s
 //@ pred cursorOK(m) = 0 <= m.comp.State.NextPortID && (m.comp.State.NextPortID < len(m.ports.ports) || m.comp.State.NextPortID == 0)
 //@ pred allRoutable(m) = forall i in 0..len(m.ports.ports) :: routable(m, ifaceval(m.ports.ports[i]))
 // log entry n is queue entry idx[n] of port src[n], retrieved during this call
@@ -256,7 +293,7 @@ package directconnection
 // one loop step's update of the witness maps: the step served port P, its log segment starts at d0, its queue run at r0
 //@ func nsrc(g, d0, P) = mapof(j, j >= d0 ? P : g[j])
 //@ func nidx(g, d0, r0) = mapof(j, j >= d0 ? r0 + j - d0 : g[j])
-//@ func nlog(g, d0, P, r0, r1) = mapof(x, pair(P, r0) <= x && x < pair(P, r1) && x < pair(P + 1, 0) ? d0 + x - pair(P, r0) : g[x])
+//@ func nlog(g, d0, P, r0, r1) = mapof(x, pair(P, r0) <= x && x < pair(P, r1) && pair(P, 0) <= x && x < pair(P + 1, 0) ? d0 + x - pair(P, r0) : g[x])
 //@ pred retrGrows() = forall p int :: old(outRetr)[p] <= outRetr[p]
 //@ pred fullStaysFull() = forall q int :: !old(canDlv)[q] ==> !canDlv[q]
 
